@@ -75,6 +75,17 @@ impl<S: Read + Write> Stream<S> {
         })
     }
 
+    /// Write all the buffer to the stream
+    /// Unlike write, this function loop until
+    /// every byte is accepted by the underlying stream
+    pub fn write_all(&mut self, buffer: &[u8]) -> RdpResult<()> {
+        match self {
+            Stream::Raw(e) => e.write_all(buffer)?,
+            Stream::Ssl(e) => e.write_all(buffer)?
+        };
+        Ok(())
+    }
+
     /// Shutdown the stream
     /// Only works when stream is a SSL stream
     pub fn shutdown(&mut self) -> RdpResult<()> {
@@ -136,7 +147,7 @@ impl<S: Read + Write> Link<S> {
     pub fn write(&mut self, message: &dyn Message) -> RdpResult<()> {
         let mut buffer = Cursor::new(Vec::new());
         message.write(&mut buffer)?;
-        self.stream.write(buffer.into_inner().as_slice())?;
+        self.stream.write_all(buffer.into_inner().as_slice())?;
         Ok(())
     }
 
